@@ -429,10 +429,17 @@ namespace BitSerializer::Convert::Detail
 	static void To(const std::chrono::time_point<TClock, TDuration>& in, std::basic_string<TSym, std::char_traits<TSym>, TAllocator>& out)
 	{
 		using TDays = std::chrono::duration<typename TDuration::rep, std::ratio<86400>>;
-		const auto datePart = std::chrono::floor<TDays>(in);
-		const auto timePart = in - datePart;
+		// Split to days (rounded toward negative infinity) and time of day. Truncated days are converted back first
+		// (floored days of the very first day of the range are not representable in `TDuration`).
+		auto datePart = std::chrono::duration_cast<TDays>(in.time_since_epoch());
+		auto timePart = in.time_since_epoch() - datePart;
+		if (timePart.count() < 0)
+		{
+			datePart -= TDays(1);
+			timePart += TDays(1);
+		}
 		auto timeInSec = std::chrono::floor<std::chrono::seconds>(timePart).count();
-		auto days = datePart.time_since_epoch().count();
+		auto days = datePart.count();
 
 		// Based on Howard Hinnant's algorithm
 		static_assert(sizeof(int) >= 4, "This algorithm has not been ported to a 16 bit integers");
